@@ -6,6 +6,7 @@ wt=$1; patch=$2; demo=$3; pkg=$4; rx=$5; shift 5
 export GOFLAGS=-mod=mod GOPROXY=off
 cd "$wt" || exit 9
 git checkout -q -- . && git clean -fdq
+git checkout -q --detach "$(git -C /repo rev-parse HEAD)"
 dst="$pkg/zz_seed_demo_test.go"
 cp "$demo" "$dst"
 echo "== demo on pristine:"; go test -vet=off -count=1 -run "$rx" "./$pkg" 2>&1 | tail -3
